@@ -12,7 +12,7 @@ import ast
 
 from .. import sqlshape
 from ..model import AnalysisError, norm
-from .c07 import cas_update_rule
+from .c07 import cas_update_rule, token_integrity_rule
 from .startstage_probe import start_if_ready_paths, timeline
 
 PLANNING = ("_plan_stage", "_collect_start_messages", "_cancel_deferred_choice_siblings")
@@ -96,6 +96,9 @@ def run(ctx, rep) -> None:
         f = prog.func(mod, qual)
         sel = [n for n in ast.walk(f.node) if isinstance(n, ast.If) and norm(n.test) == "expected_phase is not None" and any("expected_phase" in norm(x) and "UPDATE" in norm(x) for x in n.body)]
         rep.check(bool(sel), "C04.R3", f"{qual} uses the phase CAS when expected_phase is given", "if expected_phase is not None: UPDATE ... AND status = :expected_phase", f.file, sel[0].lineno if sel else f.node.lineno, disc=f"{qual}:select")
+
+    rep.rule("C04.R3b", "the version token is advanced only by the persistence layer and read before the rows it protects (the zombie test `no tasks` must be at least as new as the version it is paired with)")
+    token_integrity_rule(ctx, rep, "C04.R3b")
 
     # ---- R4 -------------------------------------------------------------------------------------
     n_fired = 0
